@@ -350,6 +350,22 @@ pub fn store_req(store: &Store, cmd: &str, a: &[&str]) -> Result<String, String>
             }
             Ok(out.join(" ;; "))
         }
+        "RDF" => {
+            // fault injection: run the nested request while `n` read transactions are held open (LMDB has 126 reader
+            // slots; with NO_TLS every open read transaction takes one): a lookup the nested request starts then fails
+            let n: usize = a[0].parse().map_err(|_| "n".to_string())?;
+            let mut held = vec![];
+            for _ in 0..n {
+                match store.read_txn() {
+                    Ok(t) => held.push(t),
+                    Err(_) => break,
+                }
+            }
+            let r = store_req(store, a[1], &a[2..]);
+            let k = held.len();
+            drop(held);
+            r.map(|x| format!("held={} {}", k, x))
+        }
         "STO" => {
             let ev = build_event(a)?;
             match store.store_event(&ev) {
